@@ -3,7 +3,7 @@
 stamps (enter, exit) on CLOCK_MONOTONIC in shared memory; afterwards no two calls may overlap.
 
 usage (stdio must be a tty):  c14_mp.py <fork|spawn|forkserver> <default|ctx> <lazy 0|1> <scale> <out.json>
-                                        [target|run|runsuper|after] [pre 0|1]
+                                        [target|run|runsuper|after|failfirst] [pre 0|1]
 
 * style `target`: children are `Process(target=…)`; `run`: a Process SUBCLASS overriding run() without
   calling super().run() (the classic way of subclassing); `runsuper`: run() calls super().run() first;
@@ -50,6 +50,19 @@ if PRE:
         _instrument(_n)
 
 
+class NotPicklable(Exception):
+    pass
+
+
+class Unpicklable:
+    def __call__(self):
+        pass
+
+    def __reduce__(self):
+        time.sleep(SLEEP)   # pickling takes a moment, then fails
+        raise NotPicklable("cannot pickle this target")
+
+
 def _make_sub(base, name):
     def __init__(self, *a):
         base.__init__(self)
@@ -72,7 +85,7 @@ for _m in ("fork", "spawn", "forkserver"):
 
 def make_process(P, args):
     """a child running `child(*args)`: by target, or by an overridden run()"""
-    if STYLE in ("target", "after"):
+    if STYLE in ("target", "after", "failfirst"):
         return P(target=child, args=args)
     for key, cls in SUBS.items():
         if cls.__mro__[1] is P:
@@ -222,6 +235,16 @@ def main():
             t.start()
         time.sleep(SLEEP * 2)
     Ps = [mp.Process, mp.get_context("forkserver").Process] if method == "mixed" else [P, P]
+    if STYLE == "failfirst":
+        # the very first start (the one that migrates the lock) fails while the parent's threads are
+        # calling synchronized functions: its target cannot be pickled (spawn / forkserver)
+        for _ in range(3):
+            try:
+                Ps[0](target=Unpicklable()).start()
+                ERRORS.append("the start of an unpicklable target did not fail")
+            except NotPicklable:
+                pass
+            time.sleep(SLEEP)
     if after:
         # an empty child first (the very first start: the lock is migrated), then the contender
         first = Ps[0](target=time.sleep, args=(0,))
